@@ -4,8 +4,13 @@ from props.regcommon import RB, entries
 from vlib import parse_pairs
 
 ID = "C18"
-THEOREMS_PLANNED = [("FlatModel.Props.C18", t) for t in ("FC.C18.used_le_cap", "FC.C18.heap_ok_reach")]
-THEOREMS = []
+THEOREMS = [("FlatModel.Props.C18", t) for t in (
+    "FC.C18.reach_capInv", "FC.C18.used_le_cap", "FC.C18.push_monotone", "FC.C18.pushes_monotone", "FC.C18.clear_caps",
+    "FC.C18.clear_used", "FC.C18.clear_used_default", "FC.C18.clear_used_columns", "FC.C18.every_child_result",
+    "FC.C18.every_child_tuple", "FC.C18.every_child_slice", "FC.C18.every_child_consec", "FC.C18.every_child_columns",
+    "FC.C18.every_child_stack", "FC.C18.every_column_reported", "FC.C18.owned_exact", "FC.C18.vecIdx_exact",
+    "FC.C18.lower_bound", "FC.C18.lower_bound_owned", "FC.C18.lower_bound_string", "FC.C18.lower_bound_slice")]
+LEAN_TARGETS = ["FlatModel.Generated.CoveredHeap"]
 PROFILES = {"quick": ["checked"], "thorough": ["checked", "wrapping"], "search": ["checked"]}
 RULE = ("histories (push in any form, clear, reserve) on every entry that implements heap_size and on FlatStacks; after every step: "
         "every pair has used <= capacity, the summed used bytes are at least a lower bound computed from the shadow (payload bytes "
